@@ -198,10 +198,6 @@ End InPlace.
 
 (** ** the final-state predicate (specification side; [model/DrawTie.v] has its executable form) *)
 
-(** inside the padded box, or the cursor movement to the start of the line below it *)
-Definition ev_box_or_below (r0 lm ph pw : Z) (e : ev) : bool :=
-  ev_inside r0 lm ph pw e
-  || match e with EMove r c => (r =? r0 + ph) && (c =? lm) | _ => false end.
 
 Record DrawFinal (W H lm top0 : Z) (t0 : term) (hide : bool) (pw ph : Z)
        (Ref S : list tok) : Prop := {
